@@ -29,7 +29,7 @@ from vlib.elf import Elf
 
 PROP = "C31"
 META = {
-    "ready": False,
+    "ready": True,
     "level": "model_checking",
     "technique": "TLA+ spec of the export rule (.dynsym membership, allowed .symtab forms) and of wild's export logic, all option configurations enumerated by TLC over a symbol universe covering every binding x visibility x file kind x listing combination; every configuration replayed into the real wild and GNU ld and both symbol tables compared; structural observer on all outputs",
     "level_text": "TLC enumerates all 153 option configurations (output kind x export option x --exclude-libs x version script x strip) over a universe of 112 definitions (3 file kinds x GLOBAL/WEAK x 4 visibilities x export-listed x version-script-local x referenced-by-DSO) and checks the transcription of wild's export logic against the declarative rule symbol by symbol; every configuration is linked with the real wild and with GNU ld 2.40 (the rule must equal GNU ld), .dynsym membership and attributes, .symtab once-ness, value (identity bytes), size, type, binding and visibility are compared, and the structural invariants (locals first, sh_info, no duplicate globals, values inside sections, null entry) are checked on every output.",
